@@ -182,7 +182,7 @@ reg("C01", [
 
 reg("C01", [
     M("C01", "rdata.loops", "rdata_bytes",
-      "TXT, OPT, NSEC, SVCB, HTTPS parsers (real Name::parse inside): every buffer length 1..6 (quick) / 1..9 (thorough), "
+      "TXT, OPT, NSEC, SVCB, HTTPS parsers (real Name::parse inside): every buffer length 1..6 (quick) / 1..8 (thorough) (OPT: 11..16 / 11..18 incl. its 10-byte fixed part), "
       "all bytes and cursor symbolic, loop bound 2L+4",
       ["<TXT|OPT|NSEC|SVCB|HTTPS as WireFormat>::parse", "CharacterString::parse", "Name::parse", "BTreeMap::insert (model)"]),
 ], [])
@@ -278,11 +278,13 @@ reg("C20", [
 reg("C05", [
     M("C05", "framing", "rr_framing",
       "header | record1 | A-record: record1 of each of the 42 parser entries (+unknown type), RDLENGTH 0..6 (quick) / 0..9 (thorough), "
-      "all RDATA bytes / class / TTLs / id symbolic; messages cut 1,2,5 bytes short; names inside RDATA = Name::parse contract stub",
+      "all RDATA bytes / class / TTLs / id symbolic; messages cut 1,2,5 bytes short; OPT + A in the additional section; an OPT record at each of "
+      "the 4 positions among three A records (wire order kept); names inside RDATA = Name::parse contract stub",
       ["Packet::parse", "Packet::parse_section", "ResourceRecord::parse", "RData::parse", "parse_rdata", "typed RDATA parsers", "Name::parse (owner names)"]),
 ], [
     "record 2 is an A record with root owner; its position is computed by an RFC 1035 envelope walker (12 + 11 + RDLENGTH)",
-    "names inside RDATA are abstracted by the Name::parse contract (discharged by C06.contract); OPT is excluded (it is lifted out of the section, see C09)",
+    "names inside RDATA are abstracted by the Name::parse contract (discharged by C06.contract); an OPT record is lifted out of the additional section (C09): "
+    "the remaining records must keep their wire order",
 ])
 
 reg("C10", [
@@ -363,10 +365,10 @@ reg("C19", [
 
 reg("C11", [
     M("C11", "reserialize", "reserialize",
-      "parser-accepted messages: all 12-byte headers (every flag word / opcode / rcode nibble); header + 1 question over 13..15 (17) fully "
-      "symbolic bytes; header + one record of each of the 42 parser entries (+unknown) with RDLENGTH 0..4 (6) and symbolic RDATA "
+      "parser-accepted messages: all 12-byte headers (every flag word / opcode / rcode nibble); header + 1 question in messages of 17..19 (21) bytes "
+      "(17: all QTYPE/QCLASS codes and ids with the root name; longer: symbolic name bytes incl. pointers, unicast bit); header + one record of each of the 42 parser entries (+unknown) with RDLENGTH 0..4 (6) and symbolic RDATA "
       "(foreign compression pointers inside RDATA names included; envelope values concrete for name-bearing types); OPT first/last "
-      "among additional records with 0/4/5 option bytes: build_bytes_vec(_compressed) succeed and parse back to an equal packet",
+      "among additional records with 0/4/5 option bytes, OPT first / in the middle of three additional records (order kept): build_bytes_vec(_compressed) succeed and parse back to an equal packet",
       ["Packet::parse", "Packet::build_bytes_vec", "Packet::build_bytes_vec_compressed", "Header::{parse,write_to,get_flags,opt_rr,extract_info_from_opt_rr}",
        "ResourceRecord / RData / typed RDATA parse + write_to + write_compressed_to + len", "Name::{parse,plain_append,compress_append}"]),
 ], [
